@@ -74,7 +74,7 @@ func (c *Check) entryHeld(fn *ssa.Function, k lockKey, depth int, visiting map[*
 	if obj == nil {
 		return false
 	}
-	sites := c.P.CallersOf(shortName(obj.FullName()))
+	sites := c.P.CallersOf(shortName(baselineName(obj)))
 	if len(sites) == 0 {
 		return false
 	}
